@@ -32,7 +32,9 @@ def run(ck, ctx):
     out_init = m.func("simple_ddl_parser.output.core:Output.__init__")
     for attr in ("final_result", "tables_dict"):
         ok = any(isinstance(n, ast.Assign) and any(access_path(t) == f"self.{attr}" for t in n.targets if isinstance(t, ast.Attribute))
-                 and isinstance(n.value, (ast.List, ast.Dict)) and not (getattr(n.value, "elts", None) or getattr(n.value, "keys", None))
+                 and ((isinstance(n.value, (ast.List, ast.Dict)) and not (getattr(n.value, "elts", None) or getattr(n.value, "keys", None)))
+                      or (isinstance(n.value, ast.Call) and isinstance(n.value.func, ast.Name) and n.value.func.id in ("list", "dict", "OrderedDict", "defaultdict")
+                          and not n.value.args and not n.value.keywords))
                  for n in ast.walk(out_init.node))
         ck.ob("T-FRESH.output", f"Output.__init__: self.{attr} starts empty", ok,
               "per-run accumulator must start from an empty literal", out_init.loc())
